@@ -16,6 +16,15 @@ theorem foundAlong_lookup (H : Hier) (n : NameId) (cap : ImplId) :
       · cases h
       · exact foundAlong_lookup H n cap t h
 
+theorem foundAlong_of_mem (H : Hier) (n : NameId) (cap : ImplId) (d : ClassId)
+    (hd : classGet H d n = some cap) : ∀ l, d ∈ l → foundAlong H n cap l = true
+  | [], h => by cases h
+  | k :: t, h => by
+    simp only [foundAlong, Bool.or_eq_true, beq_iff_eq]
+    rcases List.mem_cons.mp h with rfl | h
+    · exact Or.inl hd
+    · exact Or.inr (foundAlong_of_mem H n cap d hd t h)
+
 /-- `lookupAlong` returns `i` iff the first class of the list defining the name maps it to `i` -/
 theorem lookupAlong_eq_some (H : Hier) (n : NameId) (i : ImplId) :
     ∀ l, lookupAlong H n l = some i ↔
